@@ -8,5 +8,8 @@ def run(pid, tier, replay):
     if pid == "C19":
         from . import p_nlc
         return p_nlc.main(pid, tier, replay)
+    if pid == "C20":
+        from . import p_width
+        return p_width.main(pid, tier, replay)
     print("unknown or unclaimed property %s" % pid)
     return 2
